@@ -62,7 +62,26 @@ META = {
              "a class trait (same or flipped metadata), remove_trait, remove_trait + add_trait, "
              "remove_trait of a class trait, add_trait of a new name (trait_added); operations that "
              "meet the structural condition of one of three open findings put the rest of their "
-             "history under that finding's mechanism key; (5) a 4-thread add/remove stress; (6) 'gcpoints', ENUMERATED: 4 victim kinds (owner of a bound-method handler, plain or HasTraits; the observed root; both) x 8 expressions x 5 operations (matched leaf change, link change, container mutation, registration / unregistration of another handler): the victims are cyclic garbage, automatic collection is off, and the operation is re-run on a fresh twin with gc.collect() injected before the k-th statement executed inside the traits package (sys.monitoring LINE events) for EVERY k; judged: nothing raised or reported, call counts of the surviving handlers equal to the twin's, victims dead, and afterwards one call per matched change for survivors, none for the dead, registrations made during the collection removable exactly once.  distinct_nontrivial counts distinct "
+             "history under that finding's mechanism key; (5) a 4-thread add/remove stress; (6) 'gcpoints', ENUMERATED: 4 victim kinds (owner of a bound-method handler, plain or HasTraits; the observed root; both) x 8 expressions x 5 operations (matched leaf change, link change, container mutation, registration / unregistration of another handler): the victims are cyclic garbage, automatic collection is off, and the operation is re-run on a fresh twin with gc.collect() injected before the k-th statement executed inside the traits package (sys.monitoring LINE events) for EVERY k; judged: nothing raised or reported, call counts of the surviving handlers equal to the twin's, victims dead, and afterwards one call per matched change for survivors, none for the dead, registrations made during the collection removable exactly once; "
+             "(7) 'cycles', ENUMERATED: weakness when the registration is part of a reference cycle - 9 handler "
+             "forms held strongly by the registration (closure, default argument, functools.partial, callable "
+             "object, function attribute, closure over a container, handler storing the events it receives "
+             "locally / on the target; control: bound method of a controller the graph refers to) x 5 things "
+             "the handler refers to (observed root, object on the path, item, deeper object, the observed "
+             "container) x 8-16 expressions, with 1-3 registrations, 0..n unregistrations, a failed "
+             "registration in between, graph mutations, a retained bystander next to the path; everything is "
+             "built in a helper that returns weak references only; judged: one call per change while "
+             "registered, every object of the island dead after gc.collect(), no call / exception afterwards; "
+             "(8) 'nested': containers of containers (Dict of List / Dict / Set, List of List / Dict, of "
+             "objects and of numbers, and a dict of objects with content-based equality) observed through "
+             "name.items.items[.value] in notify / quiet / explicit / optional forms: random histories of "
+             "add / remove / failing add with graph mutations that give a key or slot a NEW container EQUAL "
+             "to the one it replaces (copy, the same object handed back, slices, update(), |=, whole-trait "
+             "assignment; an Instance link given an equal but distinct object), unequal replacements, new / deleted keys, equal siblings; after every step inner "
+             "containers in the graph AND containers that left it are changed and their items probed; plus an "
+             "enumeration container kind x equal-replacement operation x count x handler kind x dispatch of "
+             "'register n times, replace, probe both containers, unregister n times, census == initial, once "
+             "more -> NotifierNotFound'.  distinct_nontrivial counts distinct "
              "(stratum, op, expression shape, handler kind, dispatch, count class, outcome class, "
              "failure-position class) signatures of steps in which a registration changed, a call was "
              "observed, an exception was raised or an object died."),
@@ -83,7 +102,13 @@ META = {
                   "histories_starting_without_ui_handler": 250, "redefinition_histories": 180,
                   "redefinitions_while_registered": 500, "redefinitions/readd": 60,
                   "redefinitions/over-class": 60, "redefinitions/remove+add": 60,
-                  "redefinitions/add-new": 150},
+                  "redefinitions/add-new": 150,
+                  "cycle_deaths_checked": 180, "cycle_through_registration_cases": 130,
+                  "cycle_through_registration_holding_the_target": 35, "cycle_bystander_checks": 70,
+                  "nested_histories": 160, "nested_literal_cases": 170,
+                  "nested_equal_replacements_under_a_registration_through_the_container": 250,
+                  "nested_inner_probes": 12000, "nested_retired_probes": 3000,
+                  "nested_equal_link_replacements_while_registered": 25},
         "thorough": {"gcpoint_runs": 40000, "gcpoint_effective": 30000, "gcpoint_afterwards_checked": 40000,
                   "gcpoint_victims_died": 40000, "gcpoint_registrations_during_collection": 8000,
                   "gcpoint_removals_during_collection": 15000, "gcpoint_distinct_effective_lines": 2000,
@@ -100,7 +125,13 @@ META = {
                      "ui_no_handler_reports": 25000, "histories_starting_without_ui_handler": 8000,
                      "redefinition_histories": 5000, "redefinitions_while_registered": 15000,
                      "redefinitions/readd": 2000, "redefinitions/over-class": 2000,
-                     "redefinitions/remove+add": 2000, "redefinitions/add-new": 5000},
+                     "redefinitions/remove+add": 2000, "redefinitions/add-new": 5000,
+                     "cycle_deaths_checked": 2000, "cycle_through_registration_cases": 1500,
+                     "cycle_through_registration_holding_the_target": 800, "cycle_bystander_checks": 800,
+                     "nested_histories": 6000, "nested_literal_cases": 400,
+                     "nested_equal_replacements_under_a_registration_through_the_container": 3000,
+                     "nested_inner_probes": 150000, "nested_retired_probes": 100000,
+                     "nested_equal_link_replacements_while_registered": 450},
     },
     "exhaustive_parts": ("failure position: every node index of the walk for trees of depth 1..4 x "
                          "fan-out 1..3 (quick: depth 4 only with fan-out <= 2); multi-graph "
@@ -121,6 +152,12 @@ META = {
         "re-definition: add_trait / remove_trait fire no change event for the value; the model expects "
         "one trait_added event for a new name (also after remove_trait) and none otherwise; a "
         "+metadata filter matches the traits that carry the metadata NOW",
+        "cycles: the harness holds no strong reference into the island (weak references only, taken "
+        "inside a helper whose frame is gone); an object kept alive by something other than a "
+        "registration would be reported as kept alive",
+        "nested: the container traits compare by equality, so assigning an EQUAL container to the trait "
+        "replaces the container without being a change of the trait (no call expected for the trait "
+        "itself); container mutations (d[k] = v, update, slices) always are changes",
         "thread stress: final-state oracle only (census, absence of exceptions); preemptive "
         "interleavings are sampled by the OS scheduler, reach is limited",
     ],
@@ -170,16 +207,54 @@ class Owner:
         self.rec.hit(self.idx, event)
 
 
+class Twin(Node):
+    """Distinct objects with content-based equality: every Twin equals (and hashes like) every other."""
+
+    def __eq__(self, other):
+        return isinstance(other, Twin)
+
+    def __ne__(self, other):
+        return not isinstance(other, Twin)
+
+    def __hash__(self):
+        return 7
+
+
+class Hub(HasTraits):
+    """Containers of containers (stratum 'nested', _c09_nested.py): the inner containers compare by
+    content, so a key / slot can be given a NEW container that equals the one it replaces."""
+    sn = Int(-1)
+    value = Int
+    other = Int
+    tagged = Int(tag=True)
+    child = Instance(HasTraits, link=True)
+    pal = Instance(HasTraits)                    # holds objects with content-based equality
+    groups = Dict(Str, List(Instance(HasTraits)))
+    table = Dict(Str, Dict(Str, Instance(HasTraits)))
+    packs = Dict(Str, Set(Instance(HasTraits)))
+    rows = List(List(Instance(HasTraits)))
+    lmaps = List(Dict(Str, Instance(HasTraits)))
+    numbers = Dict(Str, List(Int))
+    grid = List(List(Int))
+    tmap = Dict(Str, Instance(HasTraits))
+
+
+HUB_CONTAINERS = ("groups", "table", "packs", "rows", "lmaps", "numbers", "grid", "tmap")
 _EVENTS = ("trait_added", "trait_modified")
 NAMES = {
     Node: ("bag", "child", "children", "cmap", "cset", "other", "other_child", "sn", "tagged",
            "value") + _EVENTS,
     Leaf: ("other", "sn") + _EVENTS,
+    Hub: ("child", "other", "pal", "sn", "tagged", "value") + HUB_CONTAINERS + _EVENTS,
 }
-CENSUS_EXTRA = {Node: ("children_items", "cmap_items", "cset_items"), Leaf: ()}
-TAGS = {Node: {"tag": ("tagged",), "link": ("child", "other_child")}, Leaf: {}}
-LEAF_PROBES = {Node: ("value", "other", "tagged"), Leaf: ("other",)}
-CONTAINERS = {Node: ("children", "cmap", "cset", "bag"), Leaf: ()}
+CENSUS_EXTRA = {Node: ("children_items", "cmap_items", "cset_items"), Leaf: (),
+                Hub: tuple(n + "_items" for n in HUB_CONTAINERS)}
+TAGS = {Node: {"tag": ("tagged",), "link": ("child", "other_child")}, Leaf: {},
+        Hub: {"tag": ("tagged",), "link": ("child",)}}
+LEAF_PROBES = {Node: ("value", "other", "tagged"), Leaf: ("other",), Hub: ("value", "other", "tagged")}
+CONTAINERS = {Node: ("children", "cmap", "cset", "bag"), Leaf: (), Hub: HUB_CONTAINERS}
+for _table in (NAMES, CENSUS_EXTRA, TAGS, LEAF_PROBES, CONTAINERS):
+    _table[Twin] = _table[Node]
 HANDLER_KINDS = ("function", "method", "hastraits-method")
 
 
@@ -442,7 +517,10 @@ def walk(r, obj, origin, out):
         if notify:
             out.add(("c",) + tuple(origin))
         vals = list(obj.values()) if kind == "D" else list(obj)
-        nexts = [(v, None) for v in vals]
+        # a container held by a container has no (object, trait) origin: it is named by identity
+        # (the harness keeps every container it ever saw alive, so identities are not reused)
+        nexts = [(v, ("inner", id(v)) if isinstance(v, (TraitList, TraitDict, TraitSet)) else None)
+                 for v in vals]
     else:
         if not isinstance(obj, HasTraits):
             return (False, 0, False)
@@ -497,16 +575,53 @@ def census(objs):
             v = d.get(n)
             if isinstance(v, (TraitList, TraitDict, TraitSet)):
                 c[(sn, n, "items")] = len(v.notifiers)
+                if cls is Hub and not isinstance(v, TraitSet):
+                    # containers held by the container: what they carry beyond an unobserved one
+                    # of their kind (a sum, so that adding / removing unobserved ones changes nothing)
+                    ex = 0
+                    for w in (v.values() if isinstance(v, TraitDict) else v):
+                        if isinstance(w, (TraitList, TraitDict, TraitSet)):
+                            ex += len(w.notifiers) - unobserved_size(w)
+                    c[(sn, n, "inner-items-excess")] = ex
     return c
+
+
+_UNOBSERVED = {}
+
+
+def unobserved_size(container):
+    """len(notifiers) of a never-observed container of this kind, measured on a scratch Hub."""
+    if not _UNOBSERVED:
+        ref = Hub(groups={"r": []}, table={"r": {}}, packs={"r": set()})
+        for v in (ref.groups, ref.groups["r"], ref.table["r"], ref.packs["r"]):
+            _UNOBSERVED[type(v)] = len(v.notifiers)
+    return _UNOBSERVED.get(type(container), 1)
 
 
 def describe_objs(objs, cap=45):
     """Current links of the pool, for witnesses (serial numbers only)."""
     def ref(v):
         return None if v is None else "%s#%d" % (type(v).__name__, sn_of(v))
+    def nested(v):
+        if isinstance(v, HasTraits):
+            return ref(v)
+        if isinstance(v, dict):
+            return {k: nested(x) for k, x in v.items()}
+        if isinstance(v, (set, frozenset)):
+            return sorted(nested(x) for x in v)
+        if isinstance(v, list):
+            return [nested(x) for x in v]
+        return v
     out = {}
     for o in objs[:cap]:
         d = o.__dict__
+        if type(o) is Hub:
+            e = {n: nested(d[n]) for n in HUB_CONTAINERS if d.get(n)}
+            for n in ("child", "pal"):
+                if d.get(n) is not None:
+                    e[n] = ref(d[n])
+            out["Hub#%d" % sn_of(o)] = e
+            continue
         if type(o) is Leaf:
             out["Leaf#%d" % sn_of(o)] = "no value / link traits"
             continue
@@ -522,7 +637,7 @@ def describe_objs(objs, cap=45):
                                                                          if isinstance(v, set) else [ref(x) for x in v])
         if d.get("cmap"):
             e["cmap"] = {k: ref(x) for k, x in d["cmap"].items()}
-        out["Node#%d" % sn_of(o)] = e
+        out["%s#%d" % (type(o).__name__, sn_of(o))] = e
     return out
 
 
@@ -671,6 +786,7 @@ class Session:
         self.owner = Owner(rec, 1)
         self.howner = HOwner(rec=rec, idx=2)
         self.base = None
+        self.retired = []                        # stratum 'nested': containers replaced in the graph
         self.key_prefix = None                   # set by strata of patterns that are open findings
         DYN.clear()
 
@@ -683,7 +799,15 @@ class Session:
         return self.howner.on_event
 
     def census(self):
-        return census(self.objs)
+        c = census(self.objs)
+        for i, v in enumerate(self.retired):   # containers that left the graph: nothing may stay on them
+            c[("retired container", i)] = len(v.notifiers) - unobserved_size(v)
+        return c
+
+    def retire(self, container):
+        self.retired.append(container)
+        if self.base is not None:
+            self.base[("retired container", len(self.retired) - 1)] = 0
 
     def set_base(self):
         self.base = self.census()
@@ -2530,6 +2654,12 @@ def run(ctx):
         from vf.monitors import _c09_gcpoints
         _c09_gcpoints.run(ctx)
         _run(ctx)
+        # stratum "cycles": registrations that are part of a reference cycle (handler refers back)
+        from vf.monitors import _c09_cycles
+        _c09_cycles.run(ctx, CH, guarded)
+        # stratum "nested": containers of containers, equal-but-new replacements
+        from vf.monitors import _c09_nested
+        _c09_nested.run(ctx, sys.modules[__name__])
     finally:
         WORKER.stop()
         gc.unfreeze()
